@@ -8,6 +8,8 @@ import NakenVerif.Util.Session
 namespace NakenVerif.Util
 open NakenVerif.Memory NakenVerif.Util.Spec
 
+theorem read8_init (x : BitVec 32) : read8 Memory.init x = 0 := rfl
+
 /-! ### write commands on a typed line -/
 
 theorem cmdWrite_at (w : Width) (cx : Ctx) (line : CStr) (A : BitVec 32) (ns : List Numeral)
